@@ -116,6 +116,7 @@ namespace
     std::vector<double> lengths;
     int shape = 0;                 // 0: thickness 100 km, no truncation; 1: thickness [100,60] km per segment; 2: top truncation +10 km; 3: top truncation -10 km and thinning
     double min_depth = 0, max_depth = -1;
+    double dip_point_distance = -1;   // > 0: the dip point lies this far from the trench (above the feature itself) instead of far away; it only names the side
   };
 
   std::vector<Seg> table_of(const Config &c)
@@ -139,7 +140,7 @@ namespace
   std::string describe(const Config &c)
   {
     return JObj().str("feature", c.fault ? "fault" : "subducting plate").boolean("spherical", c.spherical).raw("trench_direction", "[" + std::to_string(DIRS[c.dir][0]) + "," + std::to_string(DIRS[c.dir][1]) + "]")
-           .str("dip_side", c.left ? "left of the trench direction" : "right of the trench direction").raw("dips", jarr(c.kink.empty() ? c.dips : c.kink)).boolean("dip_jumps_between_segments", !c.kink.empty()).raw("lengths", jarr(c.lengths)).integer("shape", c.shape).num("min_depth", c.min_depth).num("max_depth", c.max_depth).done();
+           .str("dip_side", c.left ? "left of the trench direction" : "right of the trench direction").raw("dips", jarr(c.kink.empty() ? c.dips : c.kink)).boolean("dip_jumps_between_segments", !c.kink.empty()).raw("lengths", jarr(c.lengths)).integer("shape", c.shape).num("min_depth", c.min_depth).num("max_depth", c.max_depth).num("dip_point_distance_from_trench", c.dip_point_distance).done();
   }
 
   struct Frame { P2 A, B, n; double len; };   // trench from A to B, unit normal towards the dip side (cartesian metres or degrees)
@@ -170,7 +171,7 @@ namespace
                 + (c.fault ? "" : ",\"top truncation\":[" + num(g.trunc0) + "," + num(g.trunc1) + "]") + "}";
       }
     segs += "]";
-    const double far = c.spherical ? 40.0 : 5e6;
+    const double far = c.dip_point_distance > 0 ? c.dip_point_distance : c.spherical ? 40.0 : 5e6;
     const P2 dip = {{0.5*(f.A[0]+f.B[0]) + far * f.n[0], 0.5*(f.A[1]+f.B[1]) + far * f.n[1]}};
     // the linear temperature encodes the distance from the plane: T = 1000 + distance / 1000 (slab), 1000 + |distance| / 1000 (fault)
     const std::string tm = c.fault ? "{\"model\":\"linear\",\"max distance fault center\":1e6,\"center temperature\":1000,\"side temperature\":2000}"
@@ -327,6 +328,12 @@ namespace
                   c.kink = pat == 0 ? std::vector<double>{d0, d0, d1, d1} : pat == 1 ? std::vector<double>{d0, 0.5*(d0+d1) - 10, d1, d1} : std::vector<double>{d0, d0, d1, d1 + 15};
                   for (int shape : {0, 3}) { if (fault && shape == 3) continue; c.shape = shape; add(c, false); }
                 }
+            }
+        // the dip point close to the trench, above the feature (it only names the side the feature dips to)
+        for (double dd : {2e5, 0.4e5, 1.1e5}) for (double d0 : {30.0, 45.0, 90.0})
+            {
+              Config c; c.fault = fault; c.dips = {d0, d0}; c.lengths = {3e5}; c.shape = 0; c.dip_point_distance = dd;
+              add(c, th);
             }
         // min depth / max depth variants
         for (double d0 : {20.0, 70.0}) for (double d1 : {45.0, 90.0}) for (double mind : {0.0, 3e4, -4e4}) for (double maxd : {-1.0, 9e4})
